@@ -70,6 +70,7 @@ func drawCase(rt *rapid.T) casePlan {
 		N:         rapid.IntRange(0, 255).Draw(rt, "n"),
 		AbsFrame:  -1,
 	}
+	p.Later = rapid.IntRange(1, 3).Draw(rt, "later")
 	return p
 }
 
@@ -91,7 +92,7 @@ var recTamper = ev.New("C02", "tamper-live",
 		"s2c/splice-head-foreign-key", "s2c/swap-stream", "s2c/swap-stream-foreign-key", "s2c/insert", "s2c/delete", "s2c/append", "s2c/garbage-chunk", "s2c/overwrite",
 		"c2s/region-prefix", "c2s/region-salt", "c2s/region-eih", "c2s/region-fixed", "c2s/region-var", "c2s/region-len", "c2s/region-payload",
 		"s2c/region-prefix", "s2c/region-salt", "s2c/region-resphdr", "s2c/region-payload0", "s2c/region-len", "s2c/region-payload",
-		"outcome-fallback", "fallback-after-successful-user-lookup", "outcome-rejected", "outcome-accepted", "outcome-relay-rejected", "outcome-error", "cut-inside-unit", "cut-at-unit-boundary",
+		"outcome-fallback", "fallback-after-successful-user-lookup", "fallback-payload-compared-after-later-handshakes", "outcome-rejected", "outcome-accepted", "outcome-relay-rejected", "outcome-error", "cut-inside-unit", "cut-at-unit-boundary",
 		"client-salt-mismatch-detected")
 
 func record(rec *ev.Recorder, p *casePlan, r result) {
@@ -196,6 +197,7 @@ func TestTamperExhaustive(t *testing.T) {
 							p.recorded = rec
 							p.Dir = dir
 							p.Op = opSpec{Kind: kind, Bit: bit, AbsFrame: frame, AbsOff: off}
+							p.Later = 1 + (off+ci)%3
 							r := runCase(&p)
 							if r.violation != "" {
 								b, _ := json.Marshal(p)
